@@ -3,6 +3,7 @@ CONSTANTS
   KMax = 0
   MaxSteps = 0
   WithObs = FALSE
+  PurgeLast = FALSE
   Kinds = {}
 INIT Init
 NEXT Next
